@@ -157,6 +157,18 @@ struct SessionsModel : Monitor {
 			if (v.conn == 1 && v.out.len > 0 && v.outq_filled >= 4) { w->probes["c18.lookup_queue_full"]++; continue; }   // legitimately dropped
 			lk.armed = true; lk.uid = sl.first; lk.z = z_compress(p); lk.gen = m.gen; lk.bound = m.bound; lk.sent = false;
 		}
+		// grey zone (55..62 s since the last sure sign of life): remember whether the packet was served; if the session turns out to
+		// have been alive - a request of it received LATER is still accepted, and liveness cannot come back once lost - an unserved
+		// packet was a failed lookup of a live session
+		gz.armed = false;
+		if (!lk.armed) for (auto &sl : slot) {
+			SlotModel &m = sl.second;
+			if (!m.issued || !m.logged_in || m.assigned_ip_h != dst || m.t_lo == 0 || w->S.now - m.t_lo <= 55ull * 1000000 || w->S.now - m.t_lo > 64ull * 1000000) continue;
+			UserView v;
+			if (!peek_user(sl.first, v)) continue;
+			if (v.conn == 1 && v.out.len > 0 && v.outq_filled >= 4) continue;
+			gz.armed = true; gz.uid = sl.first; gz.z = z_compress(p); gz.gen = m.gen; gz.sent = false; gz.t = w->S.now; gz.dst = dst;
+		}
 		bool expired_owner = true, any = false;
 		for (auto &s : slot) if (s.second.issued && s.second.assigned_ip_h == dst) { any = true; if (s.second.logged_in && w->S.now - s.second.t_hi < 62ull * 1000000) expired_owner = false; }
 		srv_offered[p] = {w->S.now, any ? expired_owner : true};
@@ -165,11 +177,18 @@ struct SessionsModel : Monitor {
 		if (dl.armed) { dl.z = z_compress(p); dl.dst = dst; }
 	}
 	struct DeadLookup { bool armed = false; Bytes z; uint32_t dst = 0; } dl;
+	struct GreyLookup { bool armed = false; int uid = -1; Bytes z; uint64_t gen = 0, t = 0; uint32_t dst = 0; bool sent = false; } gz;
+	struct Unserved { uint64_t gen, t; uint32_t dst; };
+	std::map<int, std::vector<Unserved>> unserved;
 
 	void on_send(const Dgram &d, Sock *s) override
 	{
 		if (!s || s->owner != w->srv) return;
 		if (d.dst.fam == AF_INET && d.dst.a[0] == 127) return;
+		if (gz.armed && !gz.sent) {
+			if (is_rawf(d.data)) { size_t n = std::min(d.data.size() - 4, gz.z.size()); if (d.data.size() > 4 && (n == gz.z.size() || d.data.size() >= 4096) && !memcmp(&d.data[4], gz.z.data(), n)) gz.sent = true; }
+			else { DnsMsg m2; Bytes p2; if (dns_parse_strict(d.data, m2).empty() && answer_payload(m2, p2) && p2.size() > 2 && p2.size() - 2 <= gz.z.size() && !memcmp(&p2[2], gz.z.data(), p2.size() - 2)) gz.sent = true; }
+		}
 		if (lk.armed && !lk.sent) {
 			// did this emission carry (the beginning of) the expected packet?
 			if (is_rawf(d.data)) { size_t n = std::min(d.data.size() - 4, lk.z.size()); if (d.data.size() > 4 && (n == lk.z.size() || d.data.size() >= 4096) && !memcmp(&d.data[4], lk.z.data(), n)) lk.sent = true; }   // raw frames are cut at the 4 KB send buffer: the lookup still found the owner
@@ -273,6 +292,18 @@ struct SessionsModel : Monitor {
 			auto pq = sm.pendq.find(m.id);
 			if (pq != sm.pendq.end()) {
 				if (!pq->second.second && pq->second.first > sm.t_lo) sm.t_lo = pq->second.first;
+				if (!pq->second.second) {
+					// accepted: the session was alive when this query was received, hence at every earlier moment since its login
+					auto us = unserved.find(u.userid);
+					if (us != unserved.end()) {
+						for (auto &e : us->second) if (e.gen == sm.gen && e.t <= pq->second.first) {
+							char b[260]; snprintf(b, sizeof b, "a packet for %s read from tun at %.3f s was not taken for session %d although that session was still alive (a query of it received at %.3f s was accepted)", Addr::v4(e.dst, 0).str().c_str(), e.t / 1e6, u.userid, pq->second.first / 1e6);
+							w->S.violate("C18", "lookup.owner_not_found.live", b);
+							break;
+						}
+						us->second.clear();
+					}
+				}
 				sm.pendq.erase(pq);
 			}
 			// C04: a session silent for more than 60 s must be refused
@@ -341,6 +372,17 @@ struct SessionsModel : Monitor {
 					char b[220]; snprintf(b, sizeof b, "a packet for %s, which no live logged-in session owns (its owner, if any, has been silent for more than 60 s or never logged in), was queued for session %d", Addr::v4(dl.dst, 0).str().c_str(), u);
 					w->S.violate("C18", "lookup.dead_owner_found", b);
 				}
+			}
+		}
+		if (gz.armed) {
+			gz.armed = false;
+			auto it = slot.find(gz.uid);
+			if (it != slot.end() && it->second.gen == gz.gen) {
+				std::vector<Bytes> held; peek_outpackets(gz.uid, held);
+				bool ok = gz.sent;
+				for (auto &h : held) if (h == gz.z) ok = true;
+				w->probes["c18.grey_lookups"]++;
+				if (!ok) { unserved[gz.uid].push_back({gz.gen, gz.t, gz.dst}); if (unserved[gz.uid].size() > 32) unserved[gz.uid].erase(unserved[gz.uid].begin()); }
 			}
 		}
 		if (lk.armed) {
@@ -667,6 +709,31 @@ J gen_sessions(uint64_t seed, const J &ov)
 		if (act == "pkt" || act == "rawdata") { op.set("ser", (long long)++ser); op.set("len", (int)r.range(40, 200)); op.set("body", "rnd"); op.set("dst", "srv"); }
 		if (r.chance(0.6) && act != "v") op.set("uid", (int)(r.chance(0.8) ? r.range(0, std::max(0, cap - 1)) : r.range(0, 255)));
 		ops.push(op);
+	}
+	// a session that speaks once a minute (iodine -I 60, or a minute of loss): its pings come 59.0-61.0 s apart, so some arrive in
+	// the very last second in which the server still accepts the session; packets for it keep arriving from the tun all the time
+	if (!ffrag && !fpool && r.chance(0.25)) {
+		for (auto &m : models.a) {
+			if (m.gets("name")[0] != 'm' || m.has("auto_until_s") || m.getb("lazy") || m.has("use_v6")) continue;
+			double t0 = m.geti("start_us") / 1e6 + 6 + r.uniform() * 5;
+			if (t0 + 70 > T) break;
+			m.set("auto_until_s", t0); m.set("ping_period", 0.2 + r.uniform() * 0.3);   // last sign of life shortly before t0
+			double tp = t0 - 0.25;
+			while (true) {
+				tp += 59.2 + r.uniform() * 1.4;
+				if (tp > T - 2) break;
+				J op = J::obj(); op.set("ref", "abs"); op.set("t", (long long)(tp * 1e6)); op.set("op", "mc"); op.set("who", m.gets("name")); op.set("act", "p");
+				ops.push(op);
+				// two packets for it in the second before (few enough that its queue of five never fills)
+				for (int j = 0; j < 2; j++) {
+					J t2 = J::obj(); t2.set("ref", "abs"); t2.set("t", (long long)((tp - 0.05 - r.uniform() * 0.9) * 1e6)); t2.set("op", "tun"); t2.set("at", "srv"); t2.set("ser", (long long)++ser);
+					t2.set("len", (int)r.range(40, 90)); t2.set("body", "rnd"); t2.set("src", "ext"); t2.set("dst", m.gets("name"));
+					ops.push(t2);
+				}
+			}
+			cfg.set("models", models);
+			break;
+		}
 	}
 	// a raw-mode session that stays busy with DATA frames only (no pings, no DNS traffic) for more than a minute: it is active, its
 	// slot must not be given away and packets for its address must keep reaching it
